@@ -137,7 +137,7 @@ harnesses! {
     fn c07_t_rev_iupac_l3 [8] { rev_inplace!(Iupac, oracle::IUPAC, 32, 3) }
     fn c07_t_rev_text_l2 [10] { rev_inplace!(text::Dna, oracle::TEXT_RAW, 16, 2) }
     fn c07_t_rev_degen_l5 [5] { rev_inplace!(degenerate::Dna, oracle::DEGEN, 128, 5) }
-    fn c07_t_rev_amino_l11 [35] { rev_inplace!(Amino, oracle::AMINO, 21, 11) }
+    fn c07_q_rev_amino_l11 [35] { rev_inplace!(Amino, oracle::AMINO, 21, 11) }
 
     fn c07_q_comp_dna_l4 [6] { comp_inplace!(Dna, oracle::DNA, 0, 64, 4) }
     fn c07_q_comp_iupac_l3 [5] { comp_inplace!(Iupac, oracle::IUPAC, 1, 32, 3) }
@@ -145,7 +145,7 @@ harnesses! {
     fn c07_t_comp_mdna_l3 [5] { comp_inplace!(masked::Dna, oracle::MDNA, 3, 32, 3) }
     fn c07_t_comp_degen_l3 [5] { comp_inplace!(degenerate::Dna, oracle::DEGEN, 4, 128, 3) }
     fn c07_t_comp_dna_l33 [35] { comp_inplace!(Dna, oracle::DNA, 0, 64, 33) }
-    fn c07_t_comp_miupac_l13 [15] { comp_inplace!(masked::Iupac, oracle::MIUPAC, 2, 25, 13) }
+    fn c07_q_comp_miupac_l13 [15] { comp_inplace!(masked::Iupac, oracle::MIUPAC, 2, 25, 13) }
 
     fn c07_q_revcomp_dna_l3 [5] { revcomp_inplace!(Dna, oracle::DNA, 0, 64, 3) }
     fn c07_t_revcomp_iupac_l3 [8] { revcomp_inplace!(Iupac, oracle::IUPAC, 1, 32, 3) }
